@@ -287,10 +287,50 @@ void run_case(Rng& rng, std::uint64_t idx)
     sample(info, 5);
 }
 
+// hep::vegas_point constructed directly from canonical numbers including exactly 0 and exactly 1 (the documented guard;
+// libstdc++ itself never returns 1): coordinates in [0,1], bin index below the bin count, bin contains the point
+void vegas_point_case(Rng& rng)
+{
+    std::size_t dims = rng.range(1, 4), bins = rng.range(2, 64);
+    hep::vegas_pdf<T> pdf(dims, bins);
+    if (rng.below(2))
+        for (std::size_t d = 0; d < dims; ++d)
+        {
+            std::vector<T> x(bins + 1);
+            for (auto& v : x) v = T(rng.u01l());
+            x[0] = T(0); x[bins] = T(1);
+            std::sort(x.begin(), x.end());
+            for (std::size_t b = 0; b <= bins; ++b) pdf.set_bin_left(d, b, x[b]);
+        }
+    for (int rep = 0; rep < 20; ++rep)
+    {
+        std::vector<T> u(dims);
+        for (auto& v : u) { unsigned k = rng.below(6); v = k == 0 ? T(1) : k == 1 ? T(0) : k == 2 ? std::nextafter(T(1), T(0)) : T(rng.u01l()); }
+        std::vector<T> rn = u;
+        std::vector<std::size_t> bin(dims, 999999);
+        hep::vegas_point<T> p(rn, bin, pdf);
+        J info;
+        info.s("T", tname<T>::get()).u("dims", dims).u("bins", bins).fv("u", u).fv("x", p.point()).uv("bin", p.bin()).f("weight", p.weight());
+        count("vegas_points_constructed_directly");
+        for (std::size_t k = 0; k < dims; ++k)
+        {
+            if (u[k] == T(1)) count("canonical_number_exactly_one");
+            T x = p.point()[k];
+            if (!(x >= T(0) && x <= T(1))) { viol("vegas:coordinate-outside-[0,1]", info); return; }
+            if (p.bin()[k] >= bins) { viol(u[k] == T(1) ? "vegas:bin-index-out-of-range:u=1" : "vegas:bin-index-out-of-range", info); return; }
+            T l = pdf.bin_left(k, p.bin()[k]), r = pdf.bin_left(k, p.bin()[k] + 1);
+            T slack = T(2) * std::numeric_limits<T>::epsilon() * std::fmax(std::fabs(l), std::fabs(r));
+            if (!(x >= l - slack && x <= r + slack)) { viol("vegas:point-not-in-reported-bin", info); return; }
+        }
+        if (!(p.weight() >= T(0))) { viol("vegas:negative-or-nan-weight", info); return; }
+    }
+    ++ctx().evaluations;
+}
+
 } // namespace
 
 std::uint64_t vfh_num_cases(bool thorough) { return thorough ? 60000 : 360; }
-void vfh_run_case(std::uint64_t idx, Rng& rng) { run_case(rng, idx); }
+void vfh_run_case(std::uint64_t idx, Rng& rng) { if (idx % 12 == 11) vegas_point_case(rng); else run_case(rng, idx); }
 void vfh_selftest()
 {
     auto script = std::make_shared<Script>();
